@@ -86,9 +86,13 @@ structure ZipSt where
 
 def allReady (bufs : List (List Val)) : Bool := bufs.all (fun b => !b.isEmpty)
 
+/-- the int at the head of a slot buffer -/
+def headInt : List Val → Option Int
+  | Val.int x :: _ => some x
+  | _ => none
+
 /-- the tuple of heads (as ints: the harness zips ints) -/
-def headsTuple (bufs : List (List Val)) : Val :=
-  .list (bufs.filterMap fun b => match b with | Val.int x :: _ => some x | _ => none)
+def headsTuple (bufs : List (List Val)) : Val := .list (bufs.filterMap headInt)
 
 /-- the emit loop of `tryEmit`: fuel bounds the number of tuples -/
 def zipEmit : Nat → Int → List (List Val) → Int × List (List Val) × List Val
